@@ -125,33 +125,49 @@ def skipMarkers (m : CMod) (dir start : Int) : Nat → Int → Option Int
 
 def skipFuel (m : CMod) : Nat := m.len.toNat + 1
 
-/-- static `set_position(ctx, pos, dir)`. -/
+/-- the second `while` of `set_position` (only for `dir > 0`): pass over orders without a
+pattern that are not the end marker.  `pos` only grows and stops at `len`, so the fuel
+`len - pos` suffices (`skipInvalid_exit` in XmpProofs/Control). -/
+def skipInvalid (m : CMod) : Nat → Int → Int
+  | 0, pos => pos
+  | fuel + 1, pos =>
+    if pos < m.len ∧ m.xxoAt pos ≥ m.pat ∧ ¬(m.marker = true ∧ m.xxoAt pos = 0xff) then
+      skipInvalid m fuel (pos + 1)
+    else pos
+
+/-- tail of `set_position`: `if (pos < mod->len) { p->pos = …; libxmp_reset_flow(ctx); }`. -/
+def setPositionFin (m : CMod) (s2 : St) (pos2 : Int) : St :=
+  if pos2 < m.len then
+    { s2 with pos := (if pos2 = 0 then -1 else pos2), f := resetFlow s2.f }
+  else s2
+
+/-- `set_position` after the marker loop ended at `pos1` (`s1` already has `p->sequence = seq`). -/
+def setPositionAt (m : CMod) (s1 : St) (seq dir pos1 : Int) : St :=
+  let pos2 := if dir > 0 then skipInvalid m (skipFuel m) pos1 else pos1
+  let pat := if pos2 < m.len then m.xxoAt pos2 else 0xff
+  if dir ≠ 0 ∧ (pos2 ≥ m.len ∨ (m.marker = true ∧ pat = 0xff) ∨ m.seqOf pos2 ≠ seq) then s1
+  else
+    let sc := m.seqAt seq
+    let s2 := { s1 with f := { s1.f with endPoint := (if pos2 > sc.scanOrd then 0 else sc.scanNum) } }
+    if pat < m.pat then
+      if m.marker = true ∧ pat = 0xff then s2
+      else if pos2 > sc.scanOrd then
+        setPositionFin m { s2 with f := { s2.f with endPoint := 0 } } pos2
+      else
+        setPositionFin m { s2 with f := { s2.f with numRows := m.rowsOf pat, endPoint := sc.scanNum,
+                                                    jumpline := 0 } } pos2
+    else setPositionFin m s2 pos2
+
+/-- static `set_position(ctx, pos, dir)`; `none` = the marker loop ran out of fuel. -/
 def setPosition (m : CMod) (s : St) (pos dir : Int) : Option St :=
   let seq := if dir = 0 then m.seqOf pos else s.sequence
   if seq = 0xff then some s
   else if seq < 0 then some s
   else
-    let start := m.entry seq
     let s1 := { s with sequence := seq }
-    let fin (s2 : St) (pos2 : Int) : St :=
-      if pos2 < m.len then
-        { s2 with pos := (if pos2 = 0 then -1 else pos2), f := resetFlow s2.f }
-      else s2
     if 0 ≤ pos ∧ pos < m.len then
-      match skipMarkers m dir start (skipFuel m) pos with
-      | none => none
-      | some pos2 =>
-        let pat := if pos2 < m.len then m.xxoAt pos2 else 0xff
-        if pat < m.pat then
-          if m.marker = true ∧ pat = 0xff then some s1
-          else if pos2 > (m.seqAt seq).scanOrd then
-            some (fin { s1 with f := { s1.f with endPoint := 0 } } pos2)
-          else
-            some (fin { s1 with f := { s1.f with numRows := m.rowsOf pat,
-                                                 endPoint := (m.seqAt seq).scanNum,
-                                                 jumpline := 0 } } pos2)
-        else some (fin s1 pos2)
-    else some (fin s1 pos)
+      (skipMarkers m dir (m.entry seq) (skipFuel m) pos).map (setPositionAt m s1 seq dir)
+    else some (setPositionFin m s1 pos)
 
 /-- `xmp_set_position`: return value and new state. -/
 def xmpSetPosition (m : CMod) (s : St) (pos : Int) : Option (Int × St) :=
